@@ -91,8 +91,8 @@ var concsC10 = map[string]c10conc{
 		objName: map[string]string{"o1": "plain", "o2": "a b%41#?;+", "o3": "ü<&>'\"é"},
 		name:    map[string]string{"": "", "n1": `Work <&> "cal" ' ü`, "n2": "  lead & trail  "},
 		desc:    map[string]string{"": "", "t1": "line1\nline2 <b>&amp;</b> ]]> end "},
-		etag:    map[string]string{"e1": "abc", "e2": `a"b\c`, "e3": "ü é W/x"},
-		mtime: map[string]time.Time{"m1": time.Date(2021, 3, 1, 12, 34, 56, 789000000, time.FixedZone("p3", 3*3600)),
+		etag:    map[string]string{"e0": "", "e1": "abc", "e2": `a"b\c`, "e3": "ü é W/x"},
+		mtime: map[string]time.Time{"m0": {}, "m1": time.Date(2021, 3, 1, 12, 34, 56, 789000000, time.FixedZone("p3", 3*3600)),
 			"m2": time.Date(1999, 12, 31, 23, 59, 59, 0, time.FixedZone("m930", -9*3600-1800))},
 		max: map[int]int64{0: 0, 1: 1, 2: 1 << 40},
 	},
@@ -101,8 +101,8 @@ var concsC10 = map[string]c10conc{
 		objName: map[string]string{"o1": "a", "o2": "b", "o3": "c"},
 		name:    map[string]string{"": "", "n1": "Work", "n2": "Private"},
 		desc:    map[string]string{"": "", "t1": "a description"},
-		etag:    map[string]string{"e1": "1", "e2": "2", "e3": "3"},
-		mtime:   map[string]time.Time{"m1": time.Date(2021, 3, 1, 12, 34, 56, 0, time.UTC), "m2": time.Date(2001, 1, 1, 0, 0, 0, 0, time.UTC)},
+		etag:    map[string]string{"e0": "", "e1": "1", "e2": "2", "e3": "3"},
+		mtime:   map[string]time.Time{"m0": {}, "m1": time.Date(2021, 3, 1, 12, 34, 56, 0, time.UTC), "m2": time.Date(2001, 1, 1, 0, 0, 0, 0, time.UTC)},
 		max:     map[int]int64{0: 0, 1: 100, 2: 65536},
 	},
 }
